@@ -112,6 +112,6 @@ func execFailure(s *mainSession, err error) *kit.Finding {
 }
 
 func TestC09_Config(t *testing.T) {
-	p := kit.Prop[C09Case]{ID: "C09", Name: "Config", Quick: 200, Thorough: 8000, Gen: genC09, Run: runC09}
+	p := kit.Prop[C09Case]{ID: "C09", Name: "Config", Quick: 400, Thorough: 40000, Gen: genC09, Run: runC09}
 	p.Execute(t)
 }
